@@ -25,7 +25,8 @@ MANIFEST = {
              "ssdp.py on every run.  The model is tied to the code by differential runs: every decode result (request line, "
              "iteration order, look-ups by respelled names, as_dict, case_map) is compared, and the Lean judge is evaluated on "
              "the implementation's observations (round trip, equal results for equal (datagram, source) across histories with "
-             "cache eviction, earlier results unchanged unless their owner changed them)."),
+             "cache eviction, earlier results unchanged unless their owner changed them — including key-set changes (delete, new and "
+             "re-spelled names, clear, replace) followed by re-decodes, with the cached layers themselves read before and after)."),
     "note": ("Trusted: Lean kernel + propext/Classical.choice/Quot.sound; aiohttp HeadersParser, multidict, urllib.parse, "
              "ipaddress and the UTF-8 codec are modelled by transcription and sampled; object aliasing between results (CPython "
              "references) is outside the value-level model: independence of earlier results is carried by the correspondence "
@@ -245,34 +246,55 @@ def run_recipe(ctx: Ctx, recipe: Dict[str, Any], cid: str) -> Case:
                 lines.append("res " + res)
                 if quiet:
                     env.regs.pop(r, None)
-            elif name == "set":
-                _, r, k, v = op
+            elif name in ("set", "del", "dell", "repl", "clear"):
+                r = op[1]
                 if r not in env.regs:
                     continue
-                lines.append(f"set {r} {ts(k)} {tok_val(v)}")
-                env.regs[r][k] = v
-                lines.append("res ok")
-                tags.add("mut:set")
-            elif name == "del":
-                _, r, k = op
-                if r not in env.regs:
-                    continue
-                lines.append(f"del {r} {ts(k)}")
+                h = env.regs[r]
+                steps = []
+                if name == "set":
+                    steps.append((f"set {r} {ts(op[2])} {tok_val(op[3])}", lambda k=op[2], v=op[3]: h.__setitem__(k, v)))
+                elif name == "del":
+                    steps.append((f"del {r} {ts(op[2])}", lambda k=op[2]: h.__delitem__(k)))
+                elif name == "dell":
+                    steps.append((f"dell {r} {ts(op[2])}", lambda k=op[2]: h.del_lower(k)))
+                elif name == "repl":
+                    d = {k: v for k, v in op[2]}
+                    steps.append((f"repl {r} {lst(f'{ts(k)}={tok_val(v)}' for k, v in d.items())}", lambda d=d: h.replace(d)))
+                else:  # clear: delete every name the map iterates, one by one
+                    for k in list(h)[: op[2] if len(op) > 2 else None]:
+                        steps.append((f"del {r} {ts(k)}", lambda k=k: h.__delitem__(k)))
+                for i, (line, act) in enumerate(steps):
+                    lines.append(line)
+                    try:
+                        act()
+                        lines.append("res ok")
+                    except KeyError:
+                        lines.append("res KeyError")
+                    except Exception as e:  # noqa: BLE001 - reported as the observation
+                        lines.append("res EXC:" + exc_token(e))
+                    if i + 1 < len(steps):
+                        lines.append(f"obs {r} {observe(h, env.probes[r])}")
+                tags.add("mut:" + name)
+            elif name == "core":
+                _, r, spec, src = op[:4]
+                src = tuple(src)
+                data, _b, names = _datagram(env, spec, lines, tags)
+                a0 = (src[0], 0) if len(src) == 2 else (src[0], 0, src[2], src[3])
+                lines.append(f"core {r} {tb(data)} {tok_addr(src)}")
                 try:
-                    del env.regs[r][k]
-                    lines.append("res ok")
-                except KeyError:
-                    lines.append("res KeyError")
-                tags.add("mut:del")
-            elif name == "repl":
-                _, r, pairs = op
-                if r not in env.regs:
-                    continue
-                d = {k: v for k, v in pairs}
-                lines.append(f"repl {r} {lst(f'{ts(k)}={tok_val(v)}' for k, v in d.items())}")
-                env.regs[r].replace(d)
-                lines.append("res ok")
-                tags.add("mut:repl")
+                    rl, h = ssdp._cached_decode_ssdp_packet(data, a0)
+                    lines.append("res ok " + ts(rl))
+                    env.regs[r] = h
+                    env.probes[r] = [respell(prng, k) for k in names] + META
+                except Exception as e:  # noqa: BLE001
+                    lines.append("res EXC:" + exc_token(e))
+                try:
+                    ph, _rl, udn = ssdp._cached_header_parse(data)
+                    lines.append(f"hpo {tb(data)} {ts(udn) if udn is not None else '!'} {lst(f'{ts(str(k))}={ts(v)}' for k, v in ph.items())}")
+                except Exception:  # noqa: BLE001 - already observed through the decode
+                    pass
+                tags.add("peek:core")
             else:
                 raise ValueError(name)
             for r in sorted(env.regs):
@@ -296,7 +318,7 @@ LOCATIONS = ["http://192.168.1.7:8000/desc.xml", "http://[fe80::1]:8000/desc.xml
 BAD_LOCATIONS = ["http://[fe80::1/", "foo", "http://[fe80::1]:99999/", "http://[fe80::1]:x/", "http://fe80::1]/",
                  "http://[fe80::zz]/", "http://[1.2.3.4]/", "http://[fe80::1]:" + "9" * 4400 + "/", "http:///x", "http://:80/"]
 USNS = ["uuid:device-1::upnp:rootdevice", "uuid:device-1", "UUID:ABC::urn:x", "Uuid:", "uuid", "urn:foo", "uuid:a:b::c::d",
-        "uuid:é::x", ""]
+        "uuid:é::x", "", "uu\u0130d:a::b", "UU\u0131D:a", "\u212auid:a", "uuid:\u212a::k", "\uff55uid:a"]
 SOURCES = [("192.168.1.7", 1900), ("192.168.1.7", 50000), ("fe80::1", 1900, 0, 0), ("fe80::1", 1900, 0, 3),
            ("fe80::1", 4000, 0, 3), ("2001:db8::5", 1900, 0, 0), ("fe80::2", 1900, 7, 12), ("10.0.0.255", 0)]
 LOCALS = [("192.168.1.2", 1900), None, ("fe80::10", 1900, 0, 3)]
@@ -417,16 +439,59 @@ ALPHA = [
 ALPHA_SRC = [("fe80::1", 1900, 0, 3), ("192.168.1.7", 1900)]
 
 
+NAMES_IN_ALPHA = ["HOST", "NT", "NTS", "USN", "LOCATION", "ST", "Usn", "Location", "EXT", "X"]
+
+
 def rand_mut(rng, r: int):
-    c = rng.randrange(4)
-    k = rng.choice(["LOCATION", "location", "usn", "_host", "_udn", "NT", "new-key", "X", "_timestamp"])
+    """the owner changes an earlier result: value edits and — what exposes shared case maps — KEY-SET edits"""
+    c = rng.randrange(10)
+    k = rng.choice(NAMES_IN_ALPHA + ["location", "usn", "_host", "_udn", "new-key", "_timestamp", "_location_original"])
     if c == 0:
         return ["set", r, k, rng.choice(["changed", "", "http://evil/"])]
     if c == 1:
-        return ["del", r, k]
-    if c == 2:
         return ["repl", r, [[k, "v"], ["Other", "w"]]]
-    return ["set", r, respell(rng, k), "again"]
+    if c == 2:
+        return ["set", r, respell(rng, k), "again"]          # re-spelling an existing name
+    if c == 3:
+        return ["set", r, "X-New-" + str(rng.randrange(3)), "n"]  # a name the datagram does not have
+    if c == 4:
+        return ["dell", r, k.lower()]
+    if c == 5:
+        return ["clear", r, rng.choice([1, 3, 99])]
+    if c == 6:
+        return ["repl", r, []]
+    return ["del", r, respell(rng, k)]
+
+
+KEYSET_MUTS = [
+    [["del", 0, "USN"]], [["del", 0, "location"]], [["del", 0, "_host"]], [["dell", 0, "nt"]], [["dell", 0, "_udn"]],
+    [["set", 0, "X-New", "1"]], [["set", 0, "usn", "respelled"]], [["set", 0, "lOcAtIoN", "x"]], [["set", 0, "_HOST", "h"]],
+    [["clear", 0, 99]], [["clear", 0, 2]], [["repl", 0, []]], [["repl", 0, [["Only", "1"]]]],
+    [["del", 0, "USN"], ["set", 0, "usn", "back"]], [["set", 0, "X-New", "1"], ["del", 0, "x-new"]],
+    [["repl", 0, [["usn", "z"]]], ["del", 0, "USN"]], [["dell", 0, "location"], ["dell", 0, "_location_original"]],
+]
+
+
+def keyset_cases(rng) -> List[List[list]]:
+    """decode(D,S); key-set change on the returned map; decode(D,S) again, D from another source / port, another
+    datagram from S; the cached entries themselves are observed before and after (never touched by the harness)"""
+    out = []
+    for spec in ALPHA:
+        for mut in KEYSET_MUTS:
+            for first in ("dec", "recv"):
+                s0 = list(ALPHA_SRC[rng.randrange(2)])
+                other = list(ALPHA_SRC[0] if s0 == list(ALPHA_SRC[1]) else ALPHA_SRC[1])
+                port = list(s0)
+                port[1] = 2222
+                d2 = ALPHA[(ALPHA.index(spec) + 1) % 3]
+                ops = [["core", 5, spec, s0], [first, 0, spec, s0, None]]
+                ops += [list(m) for m in mut]
+                ops += [["dec", 1, spec, s0, None], ["recv", 2, spec, port, None, "sync"], ["dec", 3, spec, other, None],
+                        ["dec", 4, d2, s0, None], ["core", 6, spec, s0]]
+                # a second round: mutate the second result too, decode once more
+                ops += [[m[0], 1] + list(m[2:]) for m in mut] + [["dec", 0, spec, s0, None]]
+                out.append(ops)
+    return out
 
 
 def filler(rng, n: int) -> List[list]:
@@ -448,8 +513,10 @@ def history(rng, depth: int, with_fill: bool) -> List[list]:
         if kind == "recv":
             op.append(rng.choice(["sync", "async"]))
         ops.append(op)
-        while rng.random() < 0.5:
-            ops.append(rand_mut(rng, rng.randrange(0, 4)))
+        while rng.random() < 0.6:
+            ops.append(rand_mut(rng, op[1] if rng.random() < 0.6 else rng.randrange(0, 4)))
+        if rng.random() < 0.3:
+            ops.append(["core", 6, spec, list(src)])
         if with_fill and i == depth // 2:
             ops += filler(rng, rng.choice([130, 260, 520, 620]))
     return ops
@@ -524,6 +591,9 @@ def gen_part(ctx: Ctx, kind: str, n: int, prefix: str) -> List[Case]:
                     if j == 2:
                         ops.append(["repl", 0, [["X", "1"]]])
                 cases.append(_one(ctx, ops, f"{prefix}{len(cases)}", 0))
+    elif kind == "keyset":
+        for ops in keyset_cases(rng):
+            cases.append(_one(ctx, ops, f"{prefix}{len(cases)}", rng.randrange(1 << 30)))
     elif kind == "hist":
         for _ in range(n):
             cases.append(_one(ctx, history(rng, rng.randrange(2, 7), False), f"{prefix}{len(cases)}", rng.randrange(1 << 30)))
@@ -552,12 +622,13 @@ def generate(ctx: Ctx) -> List[Case]:
     for i, rec in enumerate(CORPUS):
         cases.append(run_recipe(ctx, rec, f"corpus{i}"))
     if not ctx.thorough:
-        for kind, n in (("rt", 1500), ("raw", 500), ("hist", 330), ("ev", 6)):
+        for kind, n in (("keyset", 0), ("rt", 1500), ("raw", 500), ("hist", 330), ("ev", 6)):
             cases += gen_part(ctx, kind, n, kind)
         return cases
     import multiprocessing as mp
 
     jobs = [("thorough", 0, "ex4", 0, "ex4-"), ("thorough", 0, "ex6", 0, "ex6-")]
+    jobs += [("thorough", ctx.rng.randrange(1 << 30), "keyset", 0, f"keyset{c}-") for c in range(4)]
     for kind, n, chunks in (("rt", 4000, 12), ("raw", 1500, 8), ("hist", 600, 8), ("ev", 8, 8)):
         for c in range(chunks):
             jobs.append(("thorough", ctx.rng.randrange(1 << 30), kind, n, f"{kind}{c}-"))
